@@ -81,4 +81,151 @@ theorem pll_gap_iter (ks : List Int) (s : PLL) (hs : s.inRange) :
     · rw [e]; show wrapI 64 (wrapI 64 (s.y + s.f) + _ * s.f) = _
       rw [wrapI_add_wrapI_left]; congr 1; push_cast; rw [Int.add_mul]; omega
 
+
+/-! ## 3. Decoupling and monotone descent of the frequency residue -/
+
+/-- Decoupling: when the input advanced by `F` (any `i32`) since the previous sample, the frequency residue
+    `g = f − F·2^32 (mod 2^64)` after the update is `pllT k g = g + 2k·wrap32(−(g >> 32)) (mod 2^64)`; it does not
+    depend on the phase variables `x, y, y0, f0`, nor on any range assumption on state or gain. -/
+theorem pll_freq_decoupled (s : PLL) (F k : Int) (hF : inI 32 F = true) :
+    (s.update (some (wrapI 32 (s.x + F))) k).g F
+      = wrapI 64 (s.g F + 2 * (wrapI 32 (-(s.g F / 2 ^ 32)) * k)) :=
+  feed_g s F k hF
+
+/-- Monotone descent of the frequency residue for `2^8 ≤ k < 2^31`, `G = g >> 32`:
+    `G ≥ 0`: `g' = g − 2kG ∈ [0, g]`, strictly smaller by at least `2k` when `G ≥ 1`; `G = 0`: fixed point;
+    `−2^31 < G < 0`: `g < g' = g + 2k|G| < 2^32`;
+    the single wrapping high word `G = −2^31`: `g' = g + 2^64 − k·2^32`, a positive value (one extra step). -/
+theorem pll_freq_descent (k g : Int) (hk0 : 2 ^ 8 ≤ k) (hk1 : k < 2 ^ 31)
+    (hg0 : -2 ^ 63 ≤ g) (hg1 : g < 2 ^ 63) :
+    (0 ≤ g / 2 ^ 32 → pllT k g = g - 2 * (k * (g / 2 ^ 32)) ∧ 0 ≤ pllT k g ∧ pllT k g ≤ g) ∧
+    (1 ≤ g / 2 ^ 32 → pllT k g ≤ g - 2 * k) ∧
+    (g / 2 ^ 32 = 0 → pllT k g = g) ∧
+    (-2 ^ 31 < g / 2 ^ 32 → g / 2 ^ 32 < 0 →
+      pllT k g = g - 2 * (k * (g / 2 ^ 32)) ∧ g < pllT k g ∧ pllT k g < 2 ^ 32) ∧
+    (g / 2 ^ 32 = -2 ^ 31 → pllT k g = g + 2 ^ 64 - k * 2 ^ 32 ∧ 0 < pllT k g ∧ pllT k g < 2 ^ 63) := by
+  have ⟨hp, hn⟩ := kmul_env hk0 hk1 (g / 2 ^ 32)
+  refine ⟨?_, ?_, ?_, ?_, ?_⟩
+  · intro hG
+    have := hp hG
+    rw [pllT_eq hk0 hk1 (by omega) hg1]
+    refine ⟨rfl, by omega, by omega⟩
+  · intro hG
+    have := hp (by omega)
+    have hk : k * 1 ≤ k * (g / 2 ^ 32) := Int.mul_le_mul_of_nonneg_left hG (by omega)
+    rw [pllT_eq hk0 hk1 (by omega) hg1]
+    omega
+  · intro hG
+    exact pllT_fix (by omega) (by omega)
+  · intro hG0 hG1
+    have := hn (by omega)
+    rw [pllT_eq hk0 hk1 (by omega) hg1]
+    refine ⟨rfl, by omega, by omega⟩
+  · intro hG
+    have h1 : wrapI 32 (-(g / 2 ^ 32)) = -2 ^ 31 := by rw [hG]; decide
+    unfold pllT
+    rw [h1]
+    unfold wrapI; omega
+
+/-- The sketch's simplified claims "`g' = g − 2k·wrap32(g >> 32)`" and "`G < 0 ⇒ g < g' < 2^32`" are false at the
+    wrapping high word `G = −2^31` (they hold everywhere else, see `pll_freq_descent`): witness `g = −2^63`,
+    `k = 256`. -/
+example : pllT 256 (-2 ^ 63) ≠ wrapI 64 (-2 ^ 63 - 2 * 256 * wrapI 32 ((-2 ^ 63) / 2 ^ 32)) ∧
+    ¬ pllT 256 (-2 ^ 63) < 2 ^ 32 := by decide
+
+/-! ## 4. The locked set -/
+
+/-- Inside the locked set the phase estimate is within `2^31/k + 2` LSB of the input phase (in fact the error is
+    in `[0, 2^31/k + 1]`), and after one further update (i.e. when the previous state was locked as well: `f0` is
+    the difference of two successive phase outputs) the frequency estimate is within 1 LSB of `F`. -/
+theorem pll_locked_bounds (k F : Int) (hk0 : 2 ^ 8 ≤ k) (hk1 : k < 2 ^ 31) (hF : inI 32 F = true)
+    (s : PLL) (h : Locked k F s) :
+    (0 ≤ wrapI 32 (s.y0 - s.x) ∧ wrapI 32 (s.y0 - s.x) ≤ 2 ^ 31 / k + 1) ∧
+    (-(2 ^ 31 / k + 2) ≤ wrapI 32 (s.phase - s.x) ∧ wrapI 32 (s.phase - s.x) ≤ 2 ^ 31 / k + 2) ∧
+    (-1 ≤ wrapI 32 ((s.update (some (wrapI 32 (s.x + F))) k).frequency - F) ∧
+      wrapI 32 ((s.update (some (wrapI 32 (s.x + F))) k).frequency - F) ≤ 1) := by
+  have hp := locked_phase hk0 hk1 h
+  have hq : (0 : Int) ≤ 2 ^ 31 / k := Int.ediv_nonneg (by decide) (by omega)
+  refine ⟨hp, ⟨?_, ?_⟩, locked_freq hk0 hk1 hF h⟩
+  · show _ ≤ wrapI 32 (s.y0 - s.x); omega
+  · show wrapI 32 (s.y0 - s.x) ≤ _; omega
+
+/-- "…and they stay there": the locked set is invariant under every further update whose input advanced by `F`. -/
+theorem pll_locked_invariant (k F : Int) (hk0 : 2 ^ 8 ≤ k) (hk1 : k < 2 ^ 31) (hF : inI 32 F = true)
+    (s : PLL) (h : Locked k F s) : Locked k F (s.update (some (wrapI 32 (s.x + F))) k) :=
+  locked_feed hk0 hk1 hF h
+
+/-- non-vacuity: a concrete locked state with non-trivial residues
+    (`k = 2^24`, `F = 0x71f63049`, `g = 0x12345678`, `c = 9`, `m = 10`) -/
+example : Locked (2 ^ 24) 0x71f63049 ⟨1000, 1009, 0x71f63049, 0x71f63049 * 2 ^ 32 + 0x12345678,
+    (1000 + 10) * 2 ^ 32 - 20 * 2 ^ 24 + 77⟩ := by decide
+
+/-! ## 5. Lock acquisition from any history -/
+
+/-- From an ARBITRARY state (any prior history of inputs, gains and missed samples), for every gain
+    `2^8 ≤ k < 2^31` and every input increment `F : i32`, after `n ≥ 65·⌊2^31/k⌋ + 69` updates with inputs
+    advancing by `F` the state is in the locked set and the frequency estimate is within 1 LSB; this holds for
+    every such `n`, i.e. "they stay there". -/
+theorem pll_locks_sharp (k F : Int) (hk0 : 2 ^ 8 ≤ k) (hk1 : k < 2 ^ 31) (hF : inI 32 F = true)
+    (s : PLL) (n : Nat) (hn : 65 * (2 ^ 31 / k) + 69 ≤ (n : Int)) :
+    Locked k F (PLL.track k F n s) ∧
+    -1 ≤ wrapI 32 ((PLL.track k F n s).f0 - F) ∧ wrapI 32 ((PLL.track k F n s).f0 - F) ≤ 1 := by
+  have hP := (pllP_spec hk0).2
+  have hn' : 65 * pllP k + 3 ≤ n - 1 := by omega
+  have hl := track_locked hk0 hk1 hF s hn'
+  obtain ⟨m, rfl⟩ : ∃ m, n = m + 1 := ⟨n - 1, by omega⟩
+  rw [track_succ']
+  exact ⟨locked_feed hk0 hk1 hF hl, locked_freq hk0 hk1 hF hl⟩
+
+/-- `pll_locks` with the step bound of the property statement, `64·⌊2^32/k⌋ + 64`
+    (`≤ (64·2^32)/k + 64`, and about twice what `pll_locks_sharp` needs). -/
+theorem pll_locks (k F : Int) (hk0 : 2 ^ 8 ≤ k) (hk1 : k < 2 ^ 31) (hF : inI 32 F = true)
+    (s : PLL) (n : Nat) (hn : 64 * (2 ^ 32 / k) + 64 ≤ (n : Int)) :
+    Locked k F (PLL.track k F n s) ∧
+    -1 ≤ wrapI 32 ((PLL.track k F n s).f0 - F) ∧ wrapI 32 ((PLL.track k F n s).f0 - F) ≤ 1 := by
+  have hP := (pllP_spec hk0).2
+  have := pllP_bound hk0 hk1 hn
+  exact pll_locks_sharp k F hk0 hk1 hF s n (by omega)
+
+/-- C06 in plain input/output terms. Take ANY in-range state `s` (any prior history), any gain
+    `2^8 ≤ k < 2^31`, any `F : i32` and any first sample `x₁ : i32`; feed the `n + 1` samples
+    `x₁, x₁+F, x₁+2F, …, x₁+nF` (wrapping), with `n + 1 ≥ 64·⌊2^32/k⌋ + 64`. Then the state is in range, the last
+    input is `x₁ + nF`, `frequency()` is within 1 LSB of `F` and `phase()` within `2^31/k + 2` LSB of the last
+    input phase, both modulo `2^32`. Because `n` is arbitrary above the bound, they stay there. -/
+theorem pll_C06 (k F x1 : Int) (hk0 : 2 ^ 8 ≤ k) (hk1 : k < 2 ^ 31) (hF : inI 32 F = true)
+    (hx1 : inI 32 x1 = true) (s : PLL) (hs : s.inRange) (n : Nat) (hn : 64 * (2 ^ 32 / k) + 64 ≤ (n : Int) + 1) :
+    let s' := s.feedList k (x1 :: constFreqInputs F x1 n)
+    s'.inRange ∧ s'.x = wrapI 32 (x1 + n * F) ∧
+    (-1 ≤ wrapI 32 (s'.frequency - F) ∧ wrapI 32 (s'.frequency - F) ≤ 1) ∧
+    (-(2 ^ 31 / k + 2) ≤ wrapI 32 (s'.phase - s'.x) ∧ wrapI 32 (s'.phase - s'.x) ≤ 2 ^ 31 / k + 2) := by
+  intro s'
+  have hs1 : (s.update (some x1) k).inRange := pll_total s (some x1) k hs (by intro v hv; cases hv; exact hx1)
+  have e : s' = PLL.track k F n (s.update (some x1) k) := by
+    show (s.update (some x1) k).feedList k (constFreqInputs F (s.update (some x1) k).x n) = _
+    exact feedList_constFreq k F n _
+  have hP := (pllP_spec hk0).2
+  have hb := pllP_bound hk0 hk1 (n := n + 1) (by push_cast; exact hn)
+  have ⟨hl, hf⟩ := pll_locks_sharp k F hk0 hk1 hF (s.update (some x1) k) n (by omega)
+  have hp := locked_phase hk0 hk1 hl
+  have hq : (0 : Int) ≤ 2 ^ 31 / k := Int.ediv_nonneg (by decide) (by omega)
+  rw [e]
+  refine ⟨?_, track_x k F n _ hx1, hf, ?_, ?_⟩
+  · clear hl hf hp e hb hn
+    induction n with
+    | zero => exact hs1
+    | succ n ih =>
+      rw [track_succ']
+      exact pll_total _ _ k ih (by intro v hv; cases hv; exact wrapI_in (by decide) _)
+  · show _ ≤ wrapI 32 ((PLL.track k F n (s.update (some x1) k)).y0 - _); omega
+  · show wrapI 32 ((PLL.track k F n (s.update (some x1) k)).y0 - _) ≤ _; omega
+
+/-- the pinned unit test `mini`: from the default state, `update(Some(0x10000), 1 << 24)` gives
+    `phase() = 0x1ff` and `frequency() = 0x1ff` -/
+example : (PLL.default.update (some 0x10000) (2 ^ 24)).phase = 0x1ff ∧
+    (PLL.default.update (some 0x10000) (2 ^ 24)).frequency = 0x1ff := by decide
+
+/-- the hypotheses of `pll_C06` are satisfiable: default state, `k = 2^24`, the `converge` test's frequency -/
+example : PLL.default.inRange ∧ (2 : Int) ^ 8 ≤ 2 ^ 24 ∧ (2 : Int) ^ 24 < 2 ^ 31 ∧
+    inI 32 (0x71f63049 : Int) = true := by decide
+
 end Idsp
